@@ -6,6 +6,8 @@ DST = "/verif/seeded"
 OWN_PROPS = {"OWN-git-count-first-parent": "C02", "OWN-git-status-uno": "C02", "OWN-git-author-time": "C02", "OWN-git-tag-time-tagger": "C02",
              "OWN-git-max-over-all-reachable": "C02", "OWN-ron-skip-none-post": "C12", "OWN-stdin-skip-validation": "C12", "OWN-println-before-error": "C13",
              "OWN-dev-timestamp-local-now": "C14", "OWN-python-wrong-flag": "C18", "OWN-sanitize-keep-double-separator": "C16"}
+DROPPED = {"C07-A": "mutated the local-segment range check that fix 35b8d11 removed; no longer applies",
+           "OWN-ron-skip-none-post": "equivalent: the object still round-trips, C12 is not broken"}
 log = open("/tmp/wt/confirm_all.log").read() if os.path.exists("/tmp/wt/confirm_all.log") else ""
 for prop in sorted(os.listdir(SRC)):
     if not os.path.isdir(os.path.join(SRC, prop)):
@@ -16,6 +18,8 @@ for prop in sorted(os.listdir(SRC)):
         if not os.path.exists(os.path.join(d, "patch.diff")):
             continue
         sid = "%s-%s" % (prop, x)
+        if sid in DROPPED:
+            continue
         if prop == "OWN" and sid not in OWN_PROPS:
             continue
         out = os.path.join(DST, sid)
